@@ -1112,8 +1112,11 @@ class SxStr:
             return _mkstr(self.items[k])
         if isinstance(k, SxInt):
             k = _cidx(k, len(self))
-        if k == -1 and self.items and not isinstance(self.items[-1], Numeral):
+        if k == -1 and self.items and not isinstance(self.items[-1], (Numeral, WordItem)):
             return self.items[-1]
+        if k == -1 and self.items and isinstance(self.items[-1], Numeral):
+            num = self.items[-1]       # last digit of a numeral without deciding its length
+            return SxChar.of("0123456789abcdef"[:num.base], num.x % num.base)
         if k == 0 and self.items and not isinstance(self.items[0], Numeral):
             return self.items[0]
         return self._resolve()[k]
